@@ -1,13 +1,14 @@
 #!/bin/sh
 # regression over every kept seeded change: each must make the check of its property exit 1
-ok=0; bad=0; miss=0
+ok=0; bad=0; miss=0; delta=0
 for d in seeded/*/; do
   d=${d%/}
   [ -f $d/patch.diff ] || continue; case $d in seeded/harmless*|seeded/rewrite*) continue;; esac
-  out=$(sh tools_run_seeded.sh $d 2>&1 | grep "^== ")
+  out=$(VERIF_NO_DELTA=1 sh tools_run_seeded.sh $d 2>&1 | grep "^== ")
   if echo "$out" | grep -q "exit=1"; then ok=$((ok+1));
+  elif out=$(sh tools_run_seeded.sh $d 2>&1 | grep "^== "); echo "$out" | grep -q "exit=1"; then ok=$((ok+1)); delta=$((delta+1)); echo "detected through the source-delta stage: $d";
   elif grep -q '"not_detected": true' $d/meta.json; then echo "known miss (recorded in its meta.json): $d"; miss=$((miss+1));
   else bad=$((bad+1)); echo "NOT DETECTED: $out"; fi
 done
-echo "seeded regression: $ok detected, $bad not detected, $miss recorded as beyond reach"
+echo "seeded regression: $ok detected, $bad not detected, $miss recorded as beyond reach ($delta of the detected ones only through the source-delta stage)"
 git -C /repo status --short | wc -l
